@@ -1,3 +1,4 @@
+import XcmModel.Lemmas.Tp
 import XcmModel.Lemmas.Btls
 import XcmModel.Props.C16
 import XcmModel.Lemmas.Framing
@@ -221,3 +222,25 @@ theorem C04_btls_pending_rings (s : St) (hs : s.state = .ready) (cond : Nat) (hc
   rcases hc with hc | hc <;> simp [hs, hc, RECEIVABLE, Generated.XCM_SO_RECEIVABLE]
 
 end XcmModel.C04btls
+
+/-! ## the dispatch layer xcm_tp.c: what a socket's fd watches is re-evaluated after every call -/
+namespace XcmModel.C04tp
+open XcmModel XcmModel.Tp
+
+/-- on every socket the application sees (auto_update), each xcm_send / xcm_receive / xcm_finish ends - for every
+answer of the transport, success included, and whether or not the control interface was serviced - with the
+transport's `update`: a message left in a send buffer, a newly blocked TLS operation or a state change is
+reflected in the fd registrations before the call returns, without a further xcm_await -/
+theorem C04_registrations_refreshed (s : Sock) (a : Ans) (h : s.auto = true) :
+    (send s a).2.getLast? = some .update ∧ (receive s a).2.getLast? = some .update ∧
+    (finish s a).2.getLast? = some .update :=
+  ⟨update_last_send s a h, update_last_receive s a h, update_last_finish s a h⟩
+
+/-- a successful connect / accept leaves the new connection's registrations evaluated, and every accept -
+successful or not - re-evaluates the server socket's -/
+theorem C04_new_sockets_registered (s srv : Sock) (a : Ans) (h : s.auto = true) (ok : isFail a = false) :
+    (connect s a).2.getLast? = some .update ∧ Call.update ∈ (accept s srv a).2.2 ∧
+    (∀ a', (accept s srv a').2.2.getLast? = some .updateServer) :=
+  ⟨update_last_connect s a h ok, (accept_updates s srv a).2 h ok, fun a' => (accept_updates s srv a').1⟩
+
+end XcmModel.C04tp
